@@ -77,7 +77,39 @@ def r1(ctx):
         rm = list(rc.calls(REMOVE))
         ctx.inst(R, "reap_closed:requires-fd_closed", ok and bool(rm), rc.span, "reap_closed removes only entries whose fd was closed (oracle for the rule above)" if ok else
                  "reap_closed no longer tests fd_closed (ownership model changed: re-derive C13-R1)")
-    ctx.floor(R, 8)
+    if rc:
+        # terminal = state == Closed OR reset: each disjunct alone must be able to make the filter true
+        okd = False
+        for fb in ctx.w.family(rc.id):
+            if fb.id == rc.id:
+                continue
+            eq_t, rs_t = [], []
+            for sbb, te, fe, o in guards_on(fb, lambda o: o["k"] == "call" and re.search(r"PartialEq>::eq$|PartialEq::eq$", o["t"]["f"])):
+                at = Slicer(ctx.w).atoms(fb, o["t"]["args"][0]) | Slicer(ctx.w).atoms(fb, o["t"]["args"][1])
+                if "field:" + STATE in at:
+                    eq_t += te
+            for sbb, te, fe, o in guards_on(fb, lambda o: o["k"] == "place" and place_last_field(o["p"]) == "turmoil_net::kernel::socket::Tcb::reset"):
+                rs_t += te
+            RESET = "turmoil_net::kernel::socket::Tcb::reset"
+            trues = [bb for bb, i, s in fb.all_stmts() if s["p"]["l"] == 0 and not s["p"].get("p") and s["r"]["k"] == "use" and (op_const(s["r"]["o"]) or {}).get("v") == 1]
+            copies = [bb for bb, i, s in fb.all_stmts() if s["p"]["l"] == 0 and not s["p"].get("p") and s["r"]["k"] == "use" and op_place(s["r"]["o"]) is not None
+                      and place_last_field(op_place(s["r"]["o"])) == RESET]
+            eq_f = []
+            for sbb, te, fe, o in guards_on(fb, lambda o: o["k"] == "call" and re.search(r"PartialEq>::eq$|PartialEq::eq$", o["t"]["f"])):
+                at = Slicer(ctx.w).atoms(fb, o["t"]["args"][0]) | Slicer(ctx.w).atoms(fb, o["t"]["args"][1])
+                if "field:" + STATE in at:
+                    eq_f += fe
+            if eq_t and trues and (rs_t or copies):
+                # `a || b` lowers to `if a { true } else { b }`: Closed alone yields true; not-Closed yields `reset`
+                a = any(x in fb.reachable(eq_t[0][1], removed_edges=rs_t, removed_blocks=copies) for x in trues)
+                if rs_t:
+                    b2 = any(x in fb.reachable(rs_t[0][1], removed_edges=eq_t) for x in trues)
+                else:
+                    b2 = bool(eq_f) and any(x in fb.reachable(eq_f[0][1]) for x in copies)
+                okd = a and b2
+        ctx.inst(R, "reap_closed:closed-or-reset", okd, rc.span, "a closed fd is reaped once its TCB is Closed or reset (either alone suffices)" if okd else
+                 "reap_closed's terminal test is not `state == Closed || reset`: gracefully closed (or reset) sockets are never reaped")
+    ctx.floor(R, 9)
 
 
 def r2(ctx):
